@@ -23,6 +23,5 @@ package persister
 //@   property C16
 //@   trusted
 //@   fresh
-//@   modifies *
 //@   ensures[compiled; C16; bounded] err == nil ==> schemasOK(s) && (forall k int :: 0 <= k && k < len(s) ==> (forall r int :: 0 <= r && r < len(s[k].Retentions) ==> s[k].Retentions[r] != nil))
 //@   bounded TestBounded_schemaOrder "600 random storage-schemas files (1-6 rules, priorities from {unset,0,1,2,-1}, anchored and unanchored patterns, old and new retention syntax) x 15 names (tag patterns containing = included): Match picks the rule with the highest priority among the matching ones, file order breaking ties, and its first retention gives the interval"
